@@ -374,12 +374,9 @@ class MultiSweep(Sweep):
         return self.combine(other)
 
     def combine(self, other: Sweep) -> MultiSweep:
-        """Add another sweep to this `MultiSweep`."""
-        if isinstance(other, MultiSweep):
-            self.sweeps.extend(other.sweeps)
-        else:
-            self.sweeps.append(other)
-        return self
+        """Return a new `MultiSweep` with the sweeps of this one followed by `other`."""
+        others = other.sweeps if isinstance(other, MultiSweep) else [other]
+        return MultiSweep(*self.sweeps, *others)
 
 
 def _check_dim_lengths(seqs: Sequence[Sequence[Any]], dims: tuple[str, ...]) -> None:
